@@ -101,13 +101,19 @@ func init() {
 		return ex.ts.BNot(ex.ts.Eq(t, ex.ts.Const(8, 0)))
 	})
 	reg("vf:vfIntRange", func(ex *Exec, fr *Frame, args []Value, site ssa.Instruction) Value {
-		t := ex.input(ex.strArg(args[0]), 64)
+		name := ex.strArg(args[0])
+		first := !ex.inputSeen[name]
+		t := ex.input(name, 64)
+		if !first {
+			return t // same variable asked again: already constrained
+		}
 		lo, hi := args[1].(*Term), args[2].(*Term)
 		c := ex.ts.BAnd(ex.ts.Sle(lo, t), ex.ts.Sle(t, hi))
-		if ex.check(c, false) == Unsat {
+		if c.IsFalse() {
 			panic(pathEnd{kind: endInfeasible, msg: "empty range"})
 		}
-		ex.assume(c)
+		ex.assume(c) // feasibility is established lazily (vfReach / next query)
+		ex.pcDirty = true
 		return t
 	})
 	reg("vf:vfPick", func(ex *Exec, fr *Frame, args []Value, site ssa.Instruction) Value {
@@ -320,6 +326,15 @@ func init() {
 	}
 	reg("(*sync.Mutex).Lock", func(ex *Exec, fr *Frame, args []Value, site ssa.Instruction) Value {
 		_, ls := lockOf(ex, args[0])
+		if ex.gmodeOn() {
+			ex.yield("lock")
+			for ls.held {
+				ex.block("mutex@"+ex.posOf(site), func() bool { return !ls.held })
+			}
+			ls.held = true
+			ls.owner = ex.sched.cur.id
+			return nil
+		}
 		if ls.held {
 			ex.violation("deadlock/self-lock@"+ex.posOf(site), "Lock of a mutex already held on this path", nil)
 			panic(pathEnd{kind: endBlocked, msg: "self deadlock"})
@@ -342,12 +357,23 @@ func init() {
 			panic(pathEnd{kind: endPanic, msg: "unlock of unlocked mutex"})
 		}
 		ls.held = false
+		if ex.gmodeOn() {
+			ex.yield("unlock")
+		}
 		return nil
 	})
 	reg("(*sync.RWMutex).Lock", intercepts["(*sync.Mutex).Lock"])
 	reg("(*sync.RWMutex).Unlock", intercepts["(*sync.Mutex).Unlock"])
 	reg("(*sync.RWMutex).RLock", func(ex *Exec, fr *Frame, args []Value, site ssa.Instruction) Value {
 		_, ls := lockOf(ex, args[0])
+		if ex.gmodeOn() {
+			ex.yield("rlock")
+			for ls.held {
+				ex.block("rwmutex@"+ex.posOf(site), func() bool { return !ls.held })
+			}
+			ls.readers++
+			return nil
+		}
 		if ls.held {
 			panic(pathEnd{kind: endBlocked, msg: "RLock while write-locked"})
 		}
@@ -518,6 +544,9 @@ func init() {
 	reg("(time.Time).IsZero", func(ex *Exec, fr *Frame, args []Value, site ssa.Instruction) Value {
 		return ex.ts.Eq(timeExt(args[0]), ex.c64(0))
 	})
+	reg("(time.Time).UnixNano", func(ex *Exec, fr *Frame, args []Value, site ssa.Instruction) Value {
+		return timeExt(args[0])
+	})
 	reg("(time.Time).UnixMilli", func(ex *Exec, fr *Frame, args []Value, site ssa.Instruction) Value {
 		// milliseconds are kept as a separate monotone symbolic quantity
 		ex.counters["unixmilli"]++
@@ -577,6 +606,9 @@ func (ex *Exec) storeAtomic(p Ptr, v Value, site ssa.Instruction) {
 }
 
 func (ex *Exec) now() *Term {
+	if ex.gmodeOn() {
+		return ex.sched.now
+	}
 	if ex.nowNs == nil {
 		ex.nowNs = ex.input("now_ns", 64)
 		ex.assume(ex.ts.Ult(ex.c64(1<<30), ex.nowNs))
@@ -1165,5 +1197,132 @@ func init() {
 	reg("vf:vfMonitorOff", func(ex *Exec, fr *Frame, args []Value, site ssa.Instruction) Value {
 		ex.monitorOn = false
 		return nil
+	})
+}
+
+// ---------- goroutine-mode intrinsics and the timer model ----------
+
+func (ex *Exec) timerOf(p Ptr) *vtimer {
+	if t, ok := ex.vtimers[p.cell]; ok {
+		return t
+	}
+	panic(pathEnd{kind: endUnsupported, msg: "unknown timer"})
+}
+
+func (ex *Exec) stopTimer(t *vtimer) bool {
+	was := t.active
+	t.active = false
+	if !ex.sched.asyncTimers {
+		// Go >= 1.23 channel timers: Stop/Reset discard a fired-but-unreceived value and report
+		// it as "was pending"
+		if len(t.c.buf) > 0 {
+			t.c.buf = nil
+			was = true
+		}
+	}
+	return was
+}
+
+func init() {
+	reg("vf:vfGoroutineMode", func(ex *Exec, fr *Frame, args []Value, site ssa.Instruction) Value {
+		ex.startGoroutineMode(ex.concreteInt(args[0], "preempt"), args[1].(*Term).IsTrue())
+		return nil
+	})
+	// vfQuiesce(maxAdvanceNs): run until every other goroutine is blocked or done; virtual time may
+	// advance by at most maxAdvanceNs to fire timers on the way
+	reg("vf:vfQuiesce", func(ex *Exec, fr *Frame, args []Value, site ssa.Instruction) Value {
+		sc := ex.sched
+		sc.quiesceUntil = ex.ts.Add(sc.now, args[0].(*Term))
+		for {
+			sc.quiesceWait = true
+			ex.block("quiesce", func() bool { return false })
+			// woken by the scheduler at quiescence
+			if ex.branch(ex.ts.Slt(sc.now, sc.quiesceUntil)) {
+				// let time pass to the horizon even if no timer is pending
+				pending := false
+				for _, t := range sc.timers {
+					if t.active && ex.branch(ex.ts.Sle(t.when, sc.quiesceUntil)) {
+						pending = true
+					}
+				}
+				if !pending {
+					sc.now = sc.quiesceUntil
+					return nil
+				}
+				continue
+			}
+			return nil
+		}
+	})
+	reg("vf:vfNowNs", func(ex *Exec, fr *Frame, args []Value, site ssa.Instruction) Value {
+		return ex.now()
+	})
+	reg("vf:vfLiveGoroutines", func(ex *Exec, fr *Frame, args []Value, site ssa.Instruction) Value {
+		n := 0
+		for _, g := range ex.sched.gors {
+			if !g.main && !g.done {
+				n++
+			}
+		}
+		return ex.c64(uint64(n))
+	})
+	// vfBlockedAt(substr): number of goroutines blocked at a site whose description contains substr
+	reg("vf:vfBlockedAt", func(ex *Exec, fr *Frame, args []Value, site ssa.Instruction) Value {
+		sub := ex.strArg(args[0])
+		n := 0
+		for _, g := range ex.sched.gors {
+			if !g.main && !g.done && g.blocked && strings.Contains(g.why, sub) {
+				n++
+			}
+		}
+		return ex.c64(uint64(n))
+	})
+	reg("vf:vfPendingTimers", func(ex *Exec, fr *Frame, args []Value, site ssa.Instruction) Value {
+		n := 0
+		for _, t := range ex.sched.timers {
+			if t.active {
+				n++
+			}
+		}
+		return ex.c64(uint64(n))
+	})
+	reg("time.NewTimer", func(ex *Exec, fr *Frame, args []Value, site ssa.Instruction) Value {
+		tt := ex.prog.ImportedPackage("time").Type("Timer").Type()
+		cell := new(Value)
+		sv := ex.zero(tt).(*StructV)
+		*cell = sv
+		ex.allocID++
+		ch := &ChanObj{cap: 1, et: ex.prog.ImportedPackage("time").Type("Time").Type(), id: ex.allocID}
+		sv.f[0] = ch
+		t := &vtimer{c: ch, id: ex.allocID}
+		if ex.vtimers == nil {
+			ex.vtimers = map[*Value]*vtimer{}
+		}
+		ex.vtimers[cell] = t
+		if ex.gmodeOn() {
+			t.when, t.active = ex.ts.Add(ex.sched.now, args[0].(*Term)), true
+			ex.sched.timers = append(ex.sched.timers, t)
+			ex.fireTimers() // a zero or negative duration is due at once
+			ex.yield("newtimer")
+		}
+		return Ptr{cell: cell}
+	})
+	reg("(*time.Timer).Stop", func(ex *Exec, fr *Frame, args []Value, site ssa.Instruction) Value {
+		if !ex.gmodeOn() {
+			return ex.ts.True
+		}
+		ex.yield("timer-stop")
+		return ex.ts.Bool(ex.stopTimer(ex.timerOf(args[0].(Ptr))))
+	})
+	reg("(*time.Timer).Reset", func(ex *Exec, fr *Frame, args []Value, site ssa.Instruction) Value {
+		if !ex.gmodeOn() {
+			return ex.ts.True
+		}
+		ex.yield("timer-reset")
+		t := ex.timerOf(args[0].(Ptr))
+		was := ex.stopTimer(t)
+		t.when, t.active = ex.ts.Add(ex.sched.now, args[1].(*Term)), true
+		ex.fireTimers()
+		return ex.ts.Bool(was)
 	})
 }
